@@ -63,7 +63,9 @@ func Write(out io.Writer, node ast.Node, options Options) (err error) {
 	s.walk(node)
 
 	if len(s.funcsCalled) > 0 {
-		for _, f := range difference(s.funcsCalled, s.funcsInFile) {
+		var imports = difference(s.funcsCalled, s.funcsInFile)
+		sort.Strings(imports) // (map order would make the output differ from run to run)
+		for _, f := range imports {
 			importsBuf.WriteString(s.funcsCalled[f])
 			importsBuf.WriteRune('\n')
 		}
